@@ -1,5 +1,209 @@
-(** C03 — Alignment operations equal the same operations on the gapped strings. *)
-From CG3 Require Import Lib.PyZ Lib.Val Lib.PySlice Model.View Model.IndelMap Model.Aligned Spec.AlignedSpec Proofs.AlignedProofs.
+(** C03 — Alignment operations equal the same operations on the gapped strings.
 
+    Objects.  A row of the annotatable class is what [Aligned] holds:
+    [(amap, adata)], an [IndelMap] (C08 model) and an ungapped sequence, a
+    view over a parent string (C01 model); an alignment is an insertion-ordered
+    list of named rows (Model/Aligned.v, transcribed from alignment.py).
+    [row_gapped] is [Aligned.get_gapped_seq]: the spans of the map applied to
+    the displayed sequence; [al_strings] is [to_dict()]; [al_apply] one
+    operation, [al_run] a chain (a failing operation leaves the alignment as it
+    was).  Specification (Spec/AlignedSpec.v): the alignment IS its list of
+    named gapped strings, [spec_apply] / [spec_run] are the plain string
+    operations (Python slice semantics of Lib/PySlice.v).  [row_str] is the
+    abstraction function (gap mask of the map filled with the residues),
+    [RowWF] / [AlnWF] the class invariants.
+
+    [variant] selects pinned / repaired behaviour at the five places where the
+    pinned code violates the property; every theorem holds for whichever
+    variant the live code follows, the guard [op_ok] says which inputs that
+    variant answers as the strings do.  [_refuted]: the faithful model of the
+    pinned code violates the unguarded statement (vm_compute witness, replayed
+    on the implementation by harness/props/c03.py).
+
+    This file contains nothing but statements closed by [exact]. *)
+From CG3 Require Import Lib.PyZ Lib.Val Lib.PySlice Model.View Model.IndelMap Model.IndelMapFixed Model.Aligned.
+From CG3 Require Import Spec.ViewSpec Spec.IndelMapSpec Spec.AlignedSpec Proofs.IndelMapBounded Proofs.AlignedProofs.
+
+(** * rows *)
+
+(** a gapped string is its gap mask filled with its residues ... *)
 Theorem string_is_mask_filled_with_residues : forall s : list Z, fill (mask s) (strip s) = s.
 Proof. exact fill_mask_strip. Qed.
+
+(** ... and the row the constructor builds from it ([parse_out_gaps]) denotes it *)
+Theorem row_of_string_denotes_it : forall (k : kind) (s : list Z),
+  exists r, row_of_string k s = Ok r /\ RowWF r /\ skind (adata r) = k /\ row_str r = s.
+Proof. exact row_of_string_spec. Qed.
+
+(** [get_gapped_seq] / [str(row)] (spans of the map applied to the displayed
+    sequence, as the code computes it) is what the row denotes *)
+Theorem get_gapped_seq_spec : forall r : arow, RowWF r -> row_gapped r = row_str r.
+Proof. exact row_gapped_spec. Qed.
+
+Theorem row_length : forall r : arow, RowWF r -> zlen (row_str r) = row_len r.
+Proof. exact zlen_row_str. Qed.
+
+(** HEADLINE: slicing a row by alignment columns with Python's conventions -
+    omitted bounds, negative bounds counted from the end, a start beyond the
+    stop; every gap layout, every window incl. those starting or ending inside
+    a gap run, every view state of the sequence - is the Python slice of the
+    gapped string.  [in_py_range n o]: the bound is omitted or lies in [-n, n]
+    (a bound below -n raises IndexError by design; one above n is C08-1). *)
+Theorem aligned_slice_spec : forall (vr : variant) (r : arow) (x y : option Z),
+  RowWF r -> in_py_range (row_len r) x -> in_py_range (row_len r) y ->
+  exists r', row_getitem_slice vr r x y = Ok r' /\ RowWF r' /\ skind (adata r') = skind (adata r) /\
+             row_str r' = py_slice (row_str r) x y 1.
+Proof. exact row_slice_python. Qed.
+
+Theorem aligned_index_spec : forall (vr : variant) (r : arow) (i : Z), RowWF r -> 0 <= i < row_len r ->
+  exists r', row_getitem_int vr r i = Ok r' /\ RowWF r' /\ skind (adata r') = skind (adata r) /\
+             row_str r' = ssub (row_str r) i (i + 1).
+Proof. exact row_getitem_int_spec. Qed.
+
+(** with the repair C03-3 a negative index counts from the end *)
+Theorem aligned_negative_index_spec : forall (vr : variant) (r : arow) (i : Z),
+  RowWF r -> v_negidx vr = true -> - row_len r <= i < 0 ->
+  exists r', row_getitem_int vr r i = Ok r' /\ RowWF r' /\ skind (adata r') = skind (adata r) /\
+             row_str r' = ssub (row_str r) (i + row_len r) (i + row_len r + 1).
+Proof. exact row_getitem_int_neg. Qed.
+
+(** HEADLINE: reverse complement of a row *)
+Theorem aligned_rc_spec : forall r : arow, RowWF r -> skind (adata r) <> KOther ->
+  exists r', row_rc r = Ok r' /\ RowWF r' /\ skind (adata r') = skind (adata r) /\
+             row_str r' = rc_str (skind (adata r)) (row_str r).
+Proof. exact row_rc_spec. Qed.
+
+(** concatenation (whenever the code joins the gapped strings: distinct data
+    objects, or the shortcut removed) *)
+Theorem aligned_add_spec : forall (vr : variant) (same : bool) (r1 r2 : arow),
+  RowWF r1 -> RowWF r2 -> (same = false \/ v_noshortcut vr = true) ->
+  exists r, row_add vr same r1 r2 = Ok r /\ RowWF r /\ skind (adata r) = skind (adata r1) /\
+            row_str r = row_str r1 ++ row_str r2.
+Proof. exact row_add_spec. Qed.
+
+(** a row indexed by a feature map of sorted, separated, non-empty spans inside
+    the alignment (what [filtered] builds; one span or many via
+    [joined_segments]) is the pieces of the string glued together *)
+Theorem aligned_getitem_fmap_spec : forall (vr : variant) (r : arow) (locs : list (Z * Z)),
+  RowWF r -> locs <> [] -> segs_ok 0 (row_len r) locs ->
+  exists r', row_getitem_locs vr r locs = Ok r' /\ RowWF r' /\ skind (adata r') = skind (adata r) /\
+             row_str r' = flat_map (fun se => ssub (row_str r) (fst se) (snd se)) locs.
+Proof. exact row_getitem_locs_spec. Qed.
+
+(** DNA <-> RNA alters nothing but T/U *)
+Theorem aligned_to_moltype_spec : forall (r : arow) (target : kind),
+  RowWF r -> skind (adata r) <> KOther -> target <> KOther ->
+  exists r', row_to_kind r target = Ok r' /\ RowWF r' /\ skind (adata r') = target /\
+             row_str r' = (match skind (adata r), target with
+                           | KDna, KRna => t2u_str (row_str r)
+                           | KRna, KDna => u2t_str (row_str r)
+                           | _, _ => row_str r end).
+Proof. exact row_to_kind_spec. Qed.
+
+(** * alignments *)
+
+(** the constructor: any number of named rows of equal length *)
+Theorem alignment_init_spec : forall (k : kind) (rows : list (Z * list Z)) (n : Z),
+  rows <> [] -> Forall (fun nr => zlen (snd nr) = n) rows ->
+  exists a, al_init k rows = Ok a /\ AlnWF a /\ al_kind a = k /\ astr a = rows.
+Proof. exact al_init_spec. Qed.
+
+(** [to_dict()] as the code computes it is what the alignment denotes *)
+Theorem to_dict_spec : forall a : oalign, AlnWF a -> al_strings a = astr a.
+Proof. exact al_strings_spec. Qed.
+
+(** HEADLINE (one operation): slicing, indexing, reverse complement, the three
+    concatenations, take_positions (+-negate), take_seqs (+-negate), filtered /
+    no_degenerates / omit_gap_pos (any predicate of the two families, any motif
+    length), get_degapped_relative_to, sample with given locations, to_rna /
+    to_dna, class conversion, sliding windows: on every alignment satisfying
+    the invariant and every argument in the guard the operation succeeds
+    exactly when the string operation does, with the same exception class
+    otherwise ([Err E_None]: both return None), the result again satisfies the
+    invariant (so its rows are equally long) and denotes the strings the plain
+    string operation gives *)
+Theorem ops_refine_strings : forall (vr : variant) (a : oalign) (o : aop),
+  AlnWF a -> op_ok vr (al_kind a) (astr a) o ->
+  match spec_apply (al_kind a) (astr a) o with
+  | Ok ks => exists a', al_apply vr a o = Ok a' /\ AlnWF a' /\ al_kind a' = fst ks /\ astr a' = snd ks
+  | Err e => al_apply vr a o = Err e
+  end.
+Proof. exact al_apply_spec. Qed.
+
+(** HEADLINE (histories): chains of any length, by [fold_left] *)
+Theorem chains_refine_strings : forall (vr : variant) (ops : list aop) (a : oalign),
+  AlnWF a -> chain_ok vr (al_kind a, astr a) ops ->
+  AlnWF (al_run vr a ops) /\
+  (al_kind (al_run vr a ops), astr (al_run vr a ops)) = spec_run ops (al_kind a, astr a).
+Proof. exact al_run_spec. Qed.
+
+(** rows of every alignment satisfying the invariant (hence of every result
+    above) are equally long, and [len(aln)] is that length *)
+Theorem rows_equal_length : forall a : oalign, AlnWF a ->
+  Forall (fun nr => zlen (row_gapped (snd nr)) = al_len a /\ row_len (snd nr) = al_len a) a.
+Proof. exact al_rows_equal_length. Qed.
+
+(** the hypotheses are satisfiable: a five-step chain inside the guard of the pinned variant *)
+Theorem chain_hypotheses_example :
+  exists a, al_init KDna witness_rows = Ok a /\ AlnWF a /\
+    chain_ok pinned (al_kind a, astr a)
+      [OSlice (Some 1) (Some 4); ORc; OTakePos [2; 0] false; OFilter (PGapFrac [45; 63] 0 1) 1; OAddSlices 0 1 0 1].
+Proof. exact chain_example. Qed.
+
+(** * no character is altered other than by complementing or the T/U exchange *)
+
+(** every character of every row an operation yields is [x], [comp x], [t2u x]
+    or [u2t x] for a character [x] of the rows it was given (or of the rows
+    added by [aln + other]) - for the string operations ... *)
+Theorem chars_preserved : forall (k : kind) (a : salign) (o : aop) (k' : kind) (a' : salign),
+  spec_apply k a o = Ok (k', a') ->
+  forall y, In y (chars a') -> exists x, In x (chars a ++ added o) /\ derived k x y.
+Proof. exact chars_preserved_lemma. Qed.
+
+(** ... and therefore for what the annotatable class returns *)
+Theorem alignment_chars_preserved : forall (vr : variant) (a : oalign) (o : aop) (a' : oalign),
+  AlnWF a -> op_ok vr (al_kind a) (astr a) o -> al_apply vr a o = Ok a' ->
+  forall y, In y (chars (al_strings a')) ->
+  exists x, In x (chars (al_strings a) ++ added o) /\ derived (al_kind a) x y.
+Proof. exact model_chars_preserved. Qed.
+
+(** * the pinned code violates the unguarded statements (rows TAC-T / T-CGT) *)
+
+(** full statement: every operation on every alignment, no guard on the variant *)
+Definition stmt_ops_refine_strings_unguarded : Prop := forall (a : oalign) (o : aop),
+  AlnWF a -> op_ok repaired (al_kind a) (astr a) o ->
+  match spec_apply (al_kind a) (astr a) o with
+  | Ok ks => exists a', al_apply pinned a o = Ok a' /\ astr a' = snd ks
+  | Err e => al_apply pinned a o = Err e
+  end.
+
+(** C03-1: [aln + aln] takes the [self.data is other.data] shortcut: ragged rows TAC-T- / T-CGT- *)
+Theorem add_self_refuted :
+  strings_after pinned OAddSelf = Ok [(0, [84; 65; 67; 45; 84; 45]); (1, [84; 45; 67; 71; 84; 45])] /\
+  spec_apply KDna witness_rows OAddSelf
+  = Ok (KDna, [(0, [84; 65; 67; 45; 84; 84; 65; 67; 45; 84]); (1, [84; 45; 67; 71; 84; 84; 45; 67; 71; 84])]).
+Proof. exact add_self_witness. Qed.
+
+(** C03-2: [take_positions([0], negate=True)] raises for a DNA alignment *)
+Theorem take_positions_negate_refuted :
+  strings_after pinned (OTakePos [0] true) = Err E_Type /\
+  spec_apply KDna witness_rows (OTakePos [0] true) = Ok (KDna, [(0, [65; 67; 45; 84]); (1, [45; 67; 71; 84])]).
+Proof. exact take_positions_negate_witness. Qed.
+
+(** C03-3: [aln[-1]] is empty instead of the last column *)
+Theorem index_negative_refuted :
+  strings_after pinned (OIndex (-1)) = Ok [(0, []); (1, [])] /\
+  spec_apply KDna witness_rows (OIndex (-1)) = Ok (KDna, [(0, [84]); (1, [84])]).
+Proof. exact index_negative_witness. Qed.
+
+(** C08-1 seen through the alignment: [aln[:9]] on 5 columns reports 9 columns *)
+Theorem slice_beyond_len_refuted :
+  bind (al_init KDna witness_rows) (fun a => bind (al_apply pinned a (OSlice None (Some 9))) (fun a' => Ok (al_len a'))) = Ok 9 /\
+  spec_apply KDna witness_rows (OSlice None (Some 9)) = Ok (KDna, witness_rows).
+Proof. exact slice_beyond_len_witness. Qed.
+
+(** the repaired variant answers the four witnesses as the strings do *)
+Theorem repaired_on_witnesses :
+  Forall (fun o => bind (strings_after repaired o) (fun s => Ok (KDna, s)) = spec_apply KDna witness_rows o)
+         [OAddSelf; OTakePos [0] true; OIndex (-1); OSlice None (Some 9)].
+Proof. exact repaired_witnesses. Qed.
